@@ -94,6 +94,17 @@ PROPS = {
                      "else 5s (rel. tol. 1e-9), no timeout answer before the virtual deadline and one in the step that reaches it, late replies have no "
                      "effect, sanitizers silent. Non-trivial = at least one armed duration was compared and the scenario has a timeout or a race step; "
                      "distinct = scenario hash."),
+    "C09": scen("c09", ["default"],
+                quick=dict(cases=450, size=60), thorough=dict(cases=12000, size=100, budget_s=3000),
+                rule="rapidcheck-generated base sessions (2-5 raw/WebSocket/local-socket connections; valid requests, batches, hostile ids, zero-length prefixes, "
+                     "over-long prefixes, strict prefixes of valid JSON texts as whole messages, long fillers rich in }, ] and quotes, clean disconnects; one "
+                     "operation per event-loop round so that message order is fixed) each executed under its base schedule and three generated alternative "
+                     "schedules drawn from: every read() limited to 1/2/3/5/17 bytes, every delivery split into two arrivals separated by an idle event loop "
+                     "(cut anywhere, biased into the length prefix / frame header), a prefix of the next message of another connection arriving one round early, "
+                     "seven junk patterns written into the unused tail of the read buffer after every short read. Oracles: all schedules give identical per-"
+                     "connection transcripts and close decisions (routed ids renamed by order of appearance), and each execution also agrees with the reference "
+                     "model (zero length skipped, over-long length ends the connection, incomplete JSON text rejected). evaluations counts executions (base + "
+                     "variants). Non-trivial = at least one alternative schedule differs from the base and >=3 messages were sent; distinct = scenario hash."),
     "C12": scen("c12", ["default"],
                 quick=dict(cases=1500, size=60), thorough=dict(cases=40000, size=100, budget_s=3000),
                 rule="rapidcheck-generated valid upgrades (header order and case, extra headers incl. an extension offer, random 16-byte keys, protocol lists "
